@@ -232,6 +232,12 @@ func (e *XNilBar) Error() string {
 	return e.Msg
 }
 
+// XPathErr is what a program renamed io/fs.PathError to (a type the library
+// itself declares as renamed from os.PathError).
+type XPathErr struct{ Msg string }
+
+func (e *XPathErr) Error() string { return e.Msg }
+
 // XCode is a renamed error type of basic kind (was "gen.XOldCode").
 type XCode int
 
